@@ -3,6 +3,7 @@ package main
 import (
 	"bufio"
 	"fmt"
+	"math"
 	"os"
 	"sort"
 	"strconv"
@@ -297,6 +298,44 @@ func (o *cw) pathCases(ds []*dref, p gen.Ex, kinds []string, tag string) {
 }
 
 // C01: predicate-free paths over all axes
+// emitBigAxes: axes on a document of 2^19-1 elements (implementation only: the expected numbers follow
+// from the shape of the complete binary tree), past any 16-/32-bit table the engine may keep
+func emitBigAxes(o *cw) {
+	big := o.doc(gen.RegularTree(2, 18, "x"), false)
+	all, inner := 1<<19-1, 1<<18-1
+	for _, c := range []struct {
+		e string
+		n int
+	}{
+		{"//x/ancestor::*", inner}, {"//x/ancestor-or-self::*", all}, {"//x/parent::x", inner}, {"//x/ancestor::x[1]", inner},
+		{"/descendant::x", all}, {"/x/descendant-or-self::x", all}, {"//x[not(x)]/ancestor::x", inner}, {"//x[not(x)]", all - inner},
+		{"//x/following-sibling::x", all / 2}, {"//x/preceding-sibling::x", all / 2}, {"//x[x]", inner}, {"//x/x", all - 1},
+	} {
+		o.c("distinctgo", big, "/", "-", c.e, "", "big-axes", fmt.Sprintf("expectres=K:%d", c.n))
+		if strings.Contains(c.e, "parent::") || strings.Contains(c.e, "[1]") {
+			// the engine reports a parent once per child (C01 speaks of the SET of nodes): no count() here
+			continue
+		}
+		o.c("evalgo", big, "/", "-", "count("+c.e+")", "", "big-axes-count", fmt.Sprintf("expectres=F:%016x", math.Float64bits(float64(c.n))))
+	}
+}
+
+// emitBigUnions: unions of node-sets with 2^19-1 members (implementation only)
+func emitBigUnions(o *cw) {
+	big := o.doc(gen.RegularTree(2, 18, "x"), false)
+	all, inner := 1<<19-1, 1<<18-1
+	for _, c := range []struct {
+		e string
+		n int
+	}{
+		{"//x | //x", all}, {"//x[x] | //x[not(x)]", all}, {"//x[not(x)] | //x[x]", all}, {"//x/x | /x", all}, {"//x[x] | //x/parent::x", inner},
+		{"//x | //x[x] | //x", all}, {"//x/ancestor::x | //x[not(x)]", all},
+	} {
+		o.c("distinctgo", big, "/", "-", c.e, "", "big-union", fmt.Sprintf("expectres=K:%d", c.n))
+		o.c("evalgo", big, "/", "-", "count("+c.e+")", "", "big-union-count", fmt.Sprintf("expectres=F:%016x", math.Float64bits(float64(c.n))))
+	}
+}
+
 func genC01(o *cw) {
 	g := &G{r: o.r, predAxes: allAxes}
 	hand := handDocs(o, false)
@@ -309,6 +348,7 @@ func genC01(o *cw) {
 		return elemTests
 	}
 	kinds := []string{"selall", "evalall"}
+	emitBigAxes(o)
 	// every 1-step path, absolute and relative, every test
 	for _, abs := range []bool{false, true} {
 		for _, ax := range allAxes {
@@ -423,6 +463,13 @@ func genC01(o *cw) {
 			}
 		}
 	}
+	for _, od := range oddDocs(o) {
+		for _, e := range oddPaths {
+			if !strings.Contains(e, "[") && !strings.HasPrefix(e, "string(") && !strings.HasPrefix(e, "name(") {
+				o.c("selall", od, "/", "-", e, "", "odd-documents")
+			}
+		}
+	}
 	sizeCases(o, "wide", []string{"/r/s/a", "/r/s/*", "//a", "//a/@id", "//b/..", "/r/s/a/following-sibling::b", "//a/preceding-sibling::*", "count(//a)", "count(//@id)"}, wideDoc(o, 300))
 	sizeCases(o, "deep", []string{"//x", "//y", "descendant::y", "//y/ancestor::x", "count(//x)", "count(//*)", "//y/ancestor-or-self::*", "/descendant::x/y"}, deepDoc(o, 1100, "y"))
 }
@@ -534,7 +581,33 @@ func genC02(o *cw) {
 			o.c("selall", rd, "/", "-", e, "", "rare-names")
 		}
 	}
+	for _, od := range oddDocs(o) {
+		for _, e := range oddPaths {
+			if strings.Contains(e, "[") {
+				o.c("selall", od, "/", "-", e, "", "odd-documents")
+			}
+		}
+	}
+	hd := hundredDoc(o)
+	for _, e := range longForms() {
+		if strings.HasPrefix(e, "//") || strings.HasPrefix(e, "(") {
+			o.c("sel", hd, "/", "-", e, "", "long-forms")
+		}
+	}
 	ed := edgeDoc(o)
+	// a predicate that IS a string: true iff the string is non-empty, blanks included
+	for _, pr := range []string{"string(@v)", "concat(@v, '')", "substring(@v, 1)", "@v", "string(@v) and true()", "not(string(@v))", "translate(@v, 'x', 'x')", "substring-before(concat(@v, '|'), '|')", "string(.)", "concat(., '')"} {
+		o.c("sel", ed, "/", "-", "//*["+pr+"]", "", "string-predicates")
+		o.c("sel", ed, "/", "-", "//b["+pr+"][@v]", "", "string-predicates")
+	}
+	cd := ctxDocs(o)
+	for _, outer := range []string{"//*", "//s", "//a", "/*/*"} {
+		for _, e := range []string{"a[b] = c", "b[c] = c", "a[@k] != c", "*[*] = *", "a[b][1] = c", "b[c[@n]] = c", "a[b = 3] = c", "count(a[b]) = count(c)", "a[b] | c", "a[a[b]] = c", "a[b] = c or @v", "(a[b]) = c", "a[b]/b = c", "c = a[b]"} {
+			for _, d := range cd {
+				o.c("sel", d, "/", "-", outer+"["+e+"]", "", "nested-predicate-operand")
+			}
+		}
+	}
 	for _, op := range []string{"=", "!=", "<", "<=", ">", ">="} {
 		for _, k := range []string{"5", "0", "1", "3", "(1 div 0)", "(0 div 0)", "1000000000000002"} {
 			for _, l := range []string{"@n", "@id", ".", "string(@n)", "string(.)", "concat(@n, '')", "normalize-space(@n)", "substring-after(concat('x', @n), 'x')", "number(@n)"} {
@@ -704,6 +777,16 @@ func genC03(o *cw) {
 		}
 	}
 	rareC03(o, ds)
+	hd := hundredDoc(o)
+	for _, f := range posForms {
+		for _, pre := range []string{"//l/i", "/r/l/i", "//i", "/r/l[1]/i", "/r/l[2]/i", "//l/*", "(//i)", "(//l/i)"} {
+			if strings.HasPrefix(pre, "(") && !(f[1] >= '0' && f[1] <= '9' && !strings.Contains(f, "][")) {
+				continue
+			}
+			o.c("sel", hd, "/", "-", pre+f, "", "two-three-digit-positions")
+			o.c("sel", hd, "/0", "-", strings.TrimPrefix(pre, "/r/")+f, "", "two-three-digit-positions")
+		}
+	}
 }
 
 // C12: flat paths: exact sequence; count / reverse / Evaluate relations
@@ -784,6 +867,15 @@ func genC12(o *cw) {
 	}
 	sizeCases(o, "deep", []string{"//x", "//y", "descendant::y", "count(//x)", "count(//*)", "//y/ancestor::x", "descendant-or-self::x", "reverse(//x)"}, deepDoc(o, 1100, "y"))
 	sizeCases(o, "deep", deepExprs, deepDoc(o, 40, "y(@x=1)"), deepDoc(o, 300, "y"))
+	for _, od := range oddDocs(o) {
+		for _, e := range oddPaths {
+			o.c("selall", od, "/", "-", e, "", "odd-documents")
+			if !strings.HasPrefix(e, "string(") && !strings.HasPrefix(e, "count(") && !strings.HasPrefix(e, "name(") {
+				o.c("evalall", od, "/", "-", "count("+e+")", "", "odd-documents")
+				o.c("sel3all", od, "/", "-", e, "", "odd-documents-cursor")
+			}
+		}
+	}
 	sizeCases(o, "wide", []string{"/r/s/a", "/r/s/*", "//a", "count(//a)", "reverse(//a)", "/r/s/a/@id", "count(/r/s/*/@id)"}, wideDoc(o, 300))
 	for _, e := range []string{"*", "a", "a/b", "*/*", "//a", "//*", "a/@*", "//@*", "a/self::a/b", "*/@x", "//b"} {
 		for _, d := range ds[:6] {
@@ -824,6 +916,7 @@ func genC11(o *cw) {
 		}
 	}
 	o.emitCtxRestore(g, ctxDocs(o), "union", 200*o.tier, true)
+	emitBigUnions(o)
 	names := []string{"a", "a-1", "a1", "b", "*", "node()", "text()", "*"}
 	mk := func() gen.Path {
 		p := gen.Path{Abs: g.r.Chance(40)}
@@ -995,6 +1088,13 @@ func genC13(o *cw) {
 				if di%2 == 0 {
 					o.c("selall", d, "/", "-", outer+"[(("+in+"))]", gid, "group-in-predicate(())")
 				}
+			}
+		}
+	}
+	for _, outer := range []string{"//*", "//s", "//a", "/*/*", "*"} {
+		for _, e := range []string{"a[b] = c", "b[c] = c", "a[@k] != c", "*[*] = *", "b[c[@n]] = c", "count(a[b]) = count(c)", "a[b] = c or @v", "c = a[b]", "count(a/b[1]) = count(c)", "count(a/b[1]) + count(c) > 1", "count(b/c[1]) = count(c)"} {
+			for _, d := range cds {
+				o.c("selall", d, "/", "-", outer+"["+e+"]", "", "nested-predicate-operand")
 			}
 		}
 	}
